@@ -235,7 +235,10 @@ def run(chk):
     # (whose Python names are _hy_-prefixed, like the compiler's temporaries) as operands of every sequential construct
     from hv import rules, uservars
     from hv.replay import replay_mismatch
-    rules.run_cases(chk, uservars.cases(), prefix="keep", replay_fn=replay_mismatch)
+    # (+ the cases in which two result temporaries are alive at once inside a chain that shares one: they must not share a name)
+    from hv.props import c01
+    live2 = [n for n in c01.cases(chk.tier) if n.startswith("nest/two-ifs-")]
+    rules.run_cases(chk, uservars.cases() + live2, prefix="keep", replay_fn=replay_mismatch)
     try:
         from hv.pyvc import k1
         k1.add(chk)
